@@ -119,10 +119,10 @@ theorem parseOnlyExpr_some {args : List ArgTok} {e : Operand} (h : parseOnlyExpr
 
 /-- **The conversion fires exactly when** the option is on, the path is `try` (printed `r#try` from 2018 on), and the
 macro's tokens are one expression, optionally followed by one comma. -/
-theorem rewrite_try_exact (opt : Bool) (path : Str) (args : List ArgTok) (stmt : Bool) (o : TryOut) :
-    convertTry opt path args stmt = some o ↔
+theorem rewrite_try_exact (opt : Bool) (path : Str) (args : List ArgTok) (o : TryOut) :
+    convertTry opt path args = some o ↔
       (opt = true ∧ tryPath path = true ∧
-        (args = [.expr o.operand] ∨ args = [.expr o.operand, .comma]) ∧ o.parens = needsParens stmt o.operand) := by
+        (args = [.expr o.operand] ∨ args = [.expr o.operand, .comma]) ∧ o.parens = needsParens o.operand) := by
   unfold convertTry
   constructor
   · intro h
@@ -144,33 +144,33 @@ theorem rewrite_try_exact (opt : Bool) (path : Str) (args : List ArgTok) (stmt :
 
 /-- **Sound.**  When the conversion fires, the printed form is the operand's tokens — every one of them, in
 parentheses where needed — followed by `?`; what was between the macro's delimiters is that operand and at most one
-trailing comma; and `?` applies to the whole operand (an operand of lower precedence than a postfix operator, one with
-attributes, and a block-like one at the start of a statement are parenthesised). -/
-theorem rewrite_try_sound (opt : Bool) (path : Str) (args : List ArgTok) (stmt : Bool) (o : TryOut)
-    (h : convertTry opt path args stmt = some o) :
-    o.scope stmt = some o.operand.toks ∧
+trailing comma; and `?` applies to the whole operand (an operand of lower precedence than a postfix operator and one
+with attributes are parenthesised). -/
+theorem rewrite_try_sound (opt : Bool) (path : Str) (args : List ArgTok) (o : TryOut)
+    (h : convertTry opt path args = some o) :
+    o.scope = some o.operand.toks ∧
     (argToks args = o.operand.toks ∨ argToks args = o.operand.toks ++ [cs% ","]) ∧
     (o.toks = o.operand.toks ++ [cs% "?"] ∨ o.toks = [cs% "("] ++ o.operand.toks ++ [cs% ")", cs% "?"]) := by
-  obtain ⟨_, _, ha, hp⟩ := (rewrite_try_exact opt path args stmt o).mp h
+  obtain ⟨_, _, ha, hp⟩ := (rewrite_try_exact opt path args o).mp h
   refine ⟨?_, ?_, ?_⟩
-  · unfold TryOut.scope; rw [hp]; cases needsParens stmt o.operand <;> simp
+  · unfold TryOut.scope; rw [hp]; cases needsParens o.operand <;> simp
   · rcases ha with ha | ha <;> simp [ha, argToks, ArgTok.toks]
   · unfold TryOut.toks; cases o.parens <;> simp
 
 /-- anything but one expression (and one comma) is left alone -/
-theorem rewrite_try_declines (opt : Bool) (path : Str) (args : List ArgTok) (stmt : Bool)
-    (h : parseOnlyExpr args = none) : convertTry opt path args stmt = none := by
+theorem rewrite_try_declines (opt : Bool) (path : Str) (args : List ArgTok)
+    (h : parseOnlyExpr args = none) : convertTry opt path args = none := by
   simp [convertTry, h]
 
 /-- the operand shapes of the examples: `x`, `a + b`, `y` -/
-def opX : Operand := ⟨cs% "x", [cs% "x"], false, false, false⟩
-def opSum : Operand := ⟨cs% "a + b", [cs% "a", cs% "+", cs% "b"], true, false, false⟩
-def opY : Operand := ⟨cs% "y", [cs% "y"], false, false, false⟩
+def opX : Operand := ⟨cs% "x", [cs% "x"], false, false⟩
+def opSum : Operand := ⟨cs% "a + b", [cs% "a", cs% "+", cs% "b"], true, false⟩
+def opY : Operand := ⟨cs% "y", [cs% "y"], false, false⟩
 
-example : (convertTry true (cs% "try") [.expr opX] false).map TryOut.render = some (cs% "x?") := by decide
-example : (convertTry true (cs% "try") [.expr opSum, .comma] false).map TryOut.render = some (cs% "(a + b)?") := by decide
-example : convertTry true (cs% "try") [.expr opX, .comma, .expr opY] false = none := by decide
-example : convertTry true (cs% "a::try") [.expr opX] false = none := by decide
+example : (convertTry true (cs% "try") [.expr opX]).map TryOut.render = some (cs% "x?") := by decide
+example : (convertTry true (cs% "try") [.expr opSum, .comma]).map TryOut.render = some (cs% "(a + b)?") := by decide
+example : convertTry true (cs% "try") [.expr opX, .comma, .expr opY] = none := by decide
+example : convertTry true (cs% "a::try") [.expr opX] = none := by decide
 
 /-- **The pinned tree dropped an argument**: `try!(x, y)` became `x?` — the tokens `,` `y` are gone. -/
 theorem try_pinned_drops_argument_counterexample :
@@ -180,7 +180,7 @@ theorem try_pinned_drops_argument_counterexample :
 
 /-- **The pinned tree split the operand**: `try!(a + b)` became `a + b?`, where `?` applies to `b` only. -/
 theorem try_pinned_splits_operand_counterexample :
-    (convertTryPinned true (cs% "try") [.expr opSum]).map (fun o => (o.render, o.scope false)) =
+    (convertTryPinned true (cs% "try") [.expr opSum]).map (fun o => (o.render, o.scope)) =
       some (cs% "a + b?", none) := by decide
 
 /-! ## §3 `(a, _, _, _)` → `(a, ..)` (`count_wildcard_suffix_len`, condense_wildcard_suffixes) -/
@@ -758,5 +758,119 @@ theorem semi_macro_def (ts : Bool) (c : ExprClass) : semicolonForExpr ts true c 
 example : outSemi true false true (.expr .jump) = true := by decide
 example : outSemi true false false (.expr .jump) = false := by decide
 example : outSemi false false true (.semi .jump) = true := by decide
+
+/-! ## §8 a printed float literal and the `.` that follows it -/
+
+open RF.Lit RF.Lemmas.Literal
+
+/-- **`float_lit_ends_in_dot` is exact**: for every float symbol, suffix and value of `float_literal_trailing_zero`, it
+answers yes exactly when the literal AS PRINTED (`rewrite_float_lit`, or the source text where that keeps it) ends in
+a dot. -/
+theorem float_ends_in_dot_exact (mode : TrailingZero) (symbol suffix : Str) (p : FloatParts)
+    (hp : parseFloatSymbol symbol = some p) (hsuf : '.' ∉ suffix) :
+    floatLitEndsInDot mode symbol suffix = some ((printedFloat mode symbol suffix).getLast? == some '.') := by
+  have wf := parse_wf hp
+  have hfrac : ∀ (inc : Bool), (if inc then p.fractionalPart.getD ['0'] else []).all isDigU = true := by
+    intro inc
+    cases inc
+    · simp
+    · cases hf : p.fractionalPart with
+      | none => simp; decide
+      | some f => simpa using (wf.fp_ok f hf).1
+  have hfne : (p.fractionalPart.getD ['0']) ≠ [] := by
+    cases hf : p.fractionalPart with
+    | none => simp
+    | some f => simpa using (wf.fp_ok f hf).2
+  cases mode with
+  | preserve =>
+    simp only [floatLitEndsInDot, printedFloat, rewriteFloatLit, Option.getD_none]
+    by_cases hs : suffix = []
+    · subst hs; simp
+    · rw [getLast?_append_ne _ _ hs]
+      have := not_mem_last_ne suffix hsuf
+      cases suffix with
+      | nil => exact absurd rfl hs
+      | cons a r => simp [this]
+  | always =>
+    simp only [floatLitEndsInDot, printedFloat, rewriteFloatLit, hp, Option.getD_some, if_true]
+    have := printed_last p.integerPart (p.fractionalPart.getD ['0']) suffix true p.exponent wf.ip_all
+      (hfrac true) wf.ex_ok hsuf
+    simp only [if_true] at this
+    rw [this]
+    cases hh : (p.fractionalPart.getD ['0']) with
+    | nil => exact absurd hh hfne
+    | cons a r => simp
+  | ifNoPostfix =>
+    simp only [floatLitEndsInDot, printedFloat, rewriteFloatLit, hp, Option.getD_some]
+    generalize hinc : (!p.isFractionalPartZero || !(p.exponent.isSome || !suffix.isEmpty)) = inc
+    have := printed_last p.integerPart (if inc then p.fractionalPart.getD ['0'] else []) suffix inc p.exponent
+      wf.ip_all (hfrac inc) wf.ex_ok hsuf
+    rw [this]
+    cases inc with
+    | false => simp
+    | true =>
+      cases hh : (p.fractionalPart.getD ['0']) with
+      | nil => exact absurd hh hfne
+      | cons a r => simp
+  | never =>
+    simp only [floatLitEndsInDot, printedFloat, rewriteFloatLit, hp, Option.getD_some]
+    generalize hnz : (!p.isFractionalPartZero) = nz
+    generalize hpost : (p.exponent.isSome || !suffix.isEmpty) = post
+    have := printed_last p.integerPart (if nz then p.fractionalPart.getD ['0'] else []) suffix (nz || !post)
+      p.exponent wf.ip_all (hfrac nz) wf.ex_ok hsuf
+    rw [this]
+    have hz : p.isFractionalPartZero = !nz := by rw [← hnz]; simp
+    rw [hz]
+    cases nz with
+    | true =>
+      cases hh : (p.fractionalPart.getD ['0']) with
+      | nil => exact absurd hh hfne
+      | cons a r => simp
+    | false =>
+      cases hpe : p.exponent <;> cases hse : suffix <;> simp_all
+
+/-- **The literal lexes back.**  A printed float literal followed by a range operator — with the blank that
+`needs_space_before_range` / `rewrite_range_pat` put in front of it when the literal ends in a dot — and by anything at
+all: `rustc_lexer`'s `number` takes of the whole exactly what it takes of the literal alone. -/
+theorem float_range_relex (mode : TrailingZero) (symbol suffix : Str) (p : FloatParts)
+    (hp : parseFloatSymbol symbol = some p) (hsuf : '.' ∉ suffix) (delimRest rest : Str) (b : Bool)
+    (hb : floatLitEndsInDot mode symbol suffix = some b) :
+    lexNumberRest (printedFloat mode symbol suffix ++ rangeGlue b ('.' :: '.' :: delimRest) ++ rest) =
+      lexNumberRest (printedFloat mode symbol suffix) ++ rangeGlue b ('.' :: '.' :: delimRest) ++ rest := by
+  have hex := float_ends_in_dot_exact mode symbol suffix p hp hsuf
+  rw [hb] at hex
+  simp only [Option.some.injEq] at hex
+  have hne : printedFloat mode symbol suffix ≠ [] := by
+    have wf := parse_wf hp
+    have hsym : symbol ≠ [] := by intro e; subst e; simp [parseFloatSymbol] at hp
+    have hip := wf.ip_ne
+    cases mode <;> simp [printedFloat, rewriteFloatLit, hp, hsym, hip]
+  cases b with
+  | true =>
+    simp only [rangeGlue, if_true, List.append_assoc, List.cons_append]
+    exact lexNumberRest_append _ ' ' _ hne stop_space (fun e => absurd e (by decide)) (fun e => absurd e (by decide))
+  | false =>
+    simp only [rangeGlue, Bool.false_eq_true, if_false, List.append_assoc, List.cons_append]
+    have hlast : (printedFloat mode symbol suffix).getLast? ≠ some '.' := by
+      intro h; rw [h] at hex; simp at hex
+    exact lexNumberRest_append _ '.' _ hne stop_dot (fun _ => ⟨_, rfl⟩) (fun _ => hlast)
+
+/-- a blank always keeps the literal whole (what the parentheses of a receiver and `1. ..` rely on) -/
+theorem float_then_blank_relex (s rest : Str) (hne : s ≠ []) :
+    lexNumberRest (s ++ ' ' :: rest) = lexNumberRest s ++ ' ' :: rest :=
+  lexNumberRest_append s ' ' rest hne stop_space (fun e => absurd e (by decide)) (fun e => absurd e (by decide))
+
+example : printedFloat .never (cs% "1.0") [] = cs% "1." := by decide
+example : floatLitEndsInDot .never (cs% "1.0") [] = some true := by decide
+example : lexNumberTok (cs% "1. ..2.") = cs% "1." := by decide
+example : lexNumberTok (cs% "1.5..2.") = cs% "1.5" := by decide
+example : lexNumberTok (cs% "1.0f32..") = cs% "1.0f32" := by decide
+
+/-- **The pinned tree glued the operator of a range PATTERN onto the dot**: `1.0..=2.0` under
+`float_literal_trailing_zero = Never` became `1...=2.`, whose first token is the integer `1`. -/
+theorem range_pat_pinned_counterexample :
+    let printed := printedFloat .never (cs% "1.0") []
+    lexNumberTok (printed ++ rangeGluePinned true (cs% "..=") ++ cs% "2.") = cs% "1" ∧
+      lexNumberTok (printed ++ rangeGlue true (cs% "..=") ++ cs% "2.") = printed := by decide
 
 end RF.Props.OptRewrites
